@@ -284,6 +284,33 @@ def run(ctx):
         ctx.ob('C15.rejects', label, res['raised'] == 'PlanningException' and not res['plan'],
                f'a query to a time-series model with {label} must be rejected with PlanningException before any step is planned; got '
                f'{res["raised"] or "a plan"} ({len(res["plan"])} step(s) added)', file=TS, line=ptp.lineno)
+    # ---- the sub-select form (`select .. from (select .. limit N) t join model .. limit M`): adapt_dbt_query merges the two LIMITs ---------------------------
+    adq = fns.get('adapt_dbt_query')
+    if adq is None:
+        ctx.note('PlanJoinTSPredictorQuery.adapt_dbt_query not found: the sub-select form is not planned by this class any more')
+    else:
+        for inner_l, outer_l in itertools.product((None, 3, 100), (None, 5, 100)):
+            inner = select_ctor(None, targets=[Obj('Star')], from_table=Obj('Identifier', parts=['int1', 'tbl'], alias=None), limit=const(inner_l) if inner_l else None,
+                                alias=Obj('Identifier', parts=['t1'], alias=None), parentheses=True)
+            outer = select_ctor(None, targets=[Obj('Star')], limit=const(outer_l) if outer_l else None,
+                                from_table=Obj('Join', left=inner, right=Obj('Identifier', parts=['proj', 'tp'], alias=Obj('Identifier', parts=['m'], alias=None)),
+                                               join_type='join', condition=None, implicit=False, alias=None))
+            stubs = base_stubs()
+            stubs['query_traversal'] = lambda it, node, cb, **k: None
+            self_ = Obj('PlanJoinTSPredictorQuery', planner=Obj('QueryPlanner', databases=['int1', 'proj', 'mindsdb']))
+            it = interp_for(stubs)
+            it.isa.update({'Identifier': set(), 'Join': set()})
+            try:
+                q2, _left = it.call_function(adq, [self_, outer, 'int1'], {}, Env())
+                got = q2.limit.value if isinstance(q2, Obj) and isinstance(q2.attrs.get('limit'), Obj) else None
+            except Raised as r:
+                got = f'raises {r.exc_name}'
+            want = min([x for x in (inner_l, outer_l) if x is not None], default=None)
+            rows += 1
+            ctx.ob('C15.limit-after-join', f'sub-select form: inner LIMIT {inner_l}, outer LIMIT {outer_l}', got == want,
+                   f'`select * from (select .. limit {inner_l}) t1 join model .. limit {outer_l}`: the LIMIT applied after the join is {got}, it must be {want} (the smaller of '
+                   f'the user\'s limits; none when there is none)', file=TS, line=adq.lineno,
+                   witness='select * from (select * from int1.tbl limit 100) t1 join proj.tp m limit 5')
     # ---- LIMIT after the join (plan) --------------------------------------------------------------------------------------------------------
     pl = fns['plan']
     for saved, left_is_model in itertools.product((None, 7), (False, True)):
